@@ -33,6 +33,7 @@ class Gen:
     def __init__(self, rng: random.Random, depth_max=3, allow_qubits=True, bounded=False, neg=False):
         self.rng = rng
         self.consts = [0, 1, 2, 3, -1, -2, -3] if neg else [0, 1, 2, 3]     # neg: classical values below zero
+        self.persist: List[str] = []        # qubits that stay alive across statements and flushes: gates on them at any depth
         self.bounded = bounded          # long histories: keep values small (TLC integers are 32-bit)
         self.depth_max = depth_max
         self.allow_qubits = allow_qubits
@@ -93,6 +94,12 @@ class Gen:
         p = r.random()
         if top and p < 0.12 or not self.arrays:
             return [self.new_array()]
+        if self.persist and r.random() < 0.22:
+            # a gate on a long-lived qubit, wherever the program is (inside conditionals and loops, right after them)
+            if r.random() < 0.7:
+                return [{"s": "gate", "g": r.choice(["x", "h", "z", "s", "t", "y", "k"]), "qs": [r.choice(self.persist)]}]
+            a_, b_ = r.sample(self.persist, 2)
+            return [{"s": "gate", "g": r.choice(["cnot", "cphase"]), "qs": [a_, b_]}]
         if p < 0.3:
             mod = r.choice([-1, -1, 2, 3, 5])
             o = self.val(loops)
@@ -181,6 +188,9 @@ class Gen:
 def random_history(rng: random.Random, nflush: int, per_flush: int, reads=True, depth_max=3, neg=False) -> Dict[str, Any]:
     g = Gen(rng, depth_max=depth_max, neg=neg)
     hist: List[Dict[str, Any]] = [g.new_array(), g.new_array()]
+    if neg:
+        hist += [{"s": "qubit", "h": "P1"}, {"s": "qubit", "h": "P2"}]
+        g.persist = ["P1", "P2"]
     for f in range(nflush):
         hist += g.stmts(rng.randrange(1, per_flush + 1), 0, [], top=True)
         hist.append({"s": "flush"})
@@ -242,6 +252,18 @@ def directed() -> List[Dict[str, Any]]:
     # a register measurement inside a conditional that is not taken
     D.append({"history": [A("A1", [0]), {"s": "if", "cmp": "eq", "a": fut("A1", c(0)), "b": c(1), "form": "ctx",
                                         "body": [{"s": "qubit", "h": "Q1"}, {"s": "meas", "q": "Q1", "inplace": False, "into": {"k": "newreg", "h": "F1"}}]}, F], "meas": [1]})
+    # gates on long-lived qubits around control flow: a conditional that is not taken / taken, a loop, whose body ends in a
+    # gate on the qubit that the next gate is on, while the last gate before was on the OTHER qubit
+    P = [{"s": "qubit", "h": "P1"}, {"s": "qubit", "h": "P2"}]
+    G1 = lambda g, q: {"s": "gate", "g": g, "qs": [q]}
+    for v0 in (0, 1):
+        for form in ("ctx", "cb"):
+            D.append({"history": [A("A1", [v0])] + P + [G1("x", "P2"), {"s": "if", "cmp": "eq", "a": fut("A1", c(0)), "b": c(1), "form": form, "body": [G1("x", "P1")]},
+                                                     G1("h", "P1"), G1("t", "P1"), G1("z", "P2"), F], "meas": [0]})
+            D.append({"history": [A("A1", [v0])] + P + [G1("y", "P1"), {"s": "if", "cmp": "ne", "a": fut("A1", c(0)), "b": c(1), "form": form,
+                                                                      "body": [G1("x", "P1"), G1("h", "P2")]}, G1("s", "P2"), G1("k", "P1"), F], "meas": [0]})
+    D.append({"history": [A("A1", [0])] + P + [G1("x", "P2"), {"s": "loop", "start": 0, "stop": 2, "step": 1, "form": "ctx", "body": [G1("h", "P1"), G1("z", "P2")]},
+                                              G1("t", "P2"), G1("x", "P1"), F], "meas": [0]})
     # arrays with undefined initial entries and all-equal values
     D.append({"history": [A("A1", [None, 4, None]), A("A2", [7, 7, 7, 7]), F, RA("A1"), RA("A2")], "meas": [0]})
     # in-place measurement keeps the qubit
